@@ -389,6 +389,42 @@ def _insert_re(self, name, pattern, text, within=None, nth=0, occ=0, kind='proof
     return m.groups()
 
 
+def _wrap_closure_expr_re(self, name, pattern, template, within=None, nth=0, occ=0):
+    """`|x| <expr>` -> `<template> <expr> }` where `pattern` matches the closure header (it must end with the closing `|`) and the
+    body expression extends to the first `,` or unmatched closing bracket at nesting depth 0 (so `match`, `if/else`, a block or a
+    plain expression are all accepted).  `template` must end with the `{` that opens the new body block."""
+    from rsrc import match_bracket
+    f = self.fn(name, within, nth)
+    lo, hi = f.body_open, f.body_close
+    ms = [m for m in re.finditer(pattern, self.text[lo:hi]) if self.mask[lo + m.start()]]
+    if len(ms) <= occ:
+        raise LostAnchor('%s: closure pattern %r (occ %d) not found in fn %s' % (self.relpath, pattern, occ, name))
+    m = ms[occ]
+    i = lo + m.end()
+    if self.text[i - 1] != '|':
+        raise LostAnchor('closure header pattern must end with |')
+    while i < hi:
+        if self.mask[i]:
+            c = self.text[i]
+            if c in '([{':
+                i = match_bracket(self.text, self.mask, i)
+            elif c in ')]},;':
+                break
+        i += 1
+    end = i
+    while end > lo + m.end() and self.text[end - 1].isspace():
+        end -= 1
+    if end <= lo + m.end():
+        raise LostAnchor('%s: empty closure body in fn %s' % (self.relpath, name))
+    self.ed.replace(lo + m.start(), lo + m.end(), m.expand(template), 'closure', self._qual(f, within))
+    self.ed.insert(end, ' }', 'closure', self._qual(f, within))
+    return m.groups()
+
+
+FileContracts._wrap_closure_expr_re_raw = _wrap_closure_expr_re
+FileContracts.wrap_closure_expr_re = _soft('_wrap_closure_expr_re_raw')
+
+
 def _fn_text(self, name, within=None, nth=0):
     f = self.fn(name, within, nth)
     return self.text[f.body_open:f.body_close + 1]
